@@ -14,6 +14,11 @@ def run(sid):
     out = r.stdout + r.stderr
     viol = [l for l in out.splitlines() if l.startswith("VIOLATION") or l.strip().startswith("signature=")]
     status = "DETECTED" if "VIOLATION" in out else ("MISSED" if "exit=0" in out else "ERROR")
+    seed = os.environ.get("VERIF_SEED", "1")
+    if seed != "1":
+        meta[f"status_at_seed_{seed}"] = status
+        json.dump(meta, open(os.path.join(sd, sid, "meta.json"), "w"), indent=1)
+        return sid, status, "; ".join(l.strip() for l in viol[:2])
     meta.setdefault("first_quick_result", status)
     meta["detected_by"] = {"status": status, "tier": "quick", "lines": [l[:300] for l in viol[:6]],
                            "verif_commit": os.popen(f"git -C {ROOT} rev-parse --short HEAD").read().strip()}
